@@ -207,3 +207,39 @@ PROPS["C05"] = dict(
     prereq_note=["C14 read_all_words"],
     outside=["arbitrary contents beyond 16 (24) bytes; extension chains longer than the bytes available within that bound", "storage buffers larger than 6 bytes", "memories with more than 2 slots"],
 )
+
+C17_SIMPLE_Q = ["provision_s1_empty", "provision_s1_some", "provision_s1_full", "provision_s1_small", "provision_s1_small_full", "provision_s2_full",
+                "new_pdu_s1_empty", "new_pdu_s1_some", "new_pdu_s2", "take_s1_empty", "take_s1_occ", "take_s2_one", "take_s2_both",
+                "new_frag_s1_empty_nobuf", "new_frag_s1_empty", "new_frag_s1_occ", "new_frag_s2", "save_s1_empty", "save_s1_occ", "save_s2"]
+C17_SIMPLE_T = ["take_s3", "new_frag_s3", "save_s3", "provision_s3"]
+C17_REF = ["take_s1_empty", "new_frag_s1_empty_nobuf", "provision_s1_some", "provision_s1_full", "provision_s1_small", "new_pdu_s1_empty", "new_pdu_s1_some", "take_s1_occ", "take_s2_both",
+           "new_frag_s1_empty", "new_frag_s1_occ", "new_frag_s2", "save_s1_occ", "save_s2"]
+C17_BOUNDS = "one trait operation with symbolic arguments (any fragment id, any context) from every state of the named heap shape (slots 1/2/3, slots empty or occupied, 0..capacity free buffers of sizes below/at/above the configured 4 bytes); contexts, buffer contents symbolic; post-state observed by draining through the trait"
+
+
+def c17_simple(tier_t=True):
+    def fam(n):
+        return "simple_" + "_".join(n.split("_s")[0:1])
+    hs = [H(f"c17::simple_{n}", bounds=C17_BOUNDS, unwind=6, stubs=STUBS_DECAP[1:], cost=10, mem_gb=3, covers="any", family=fam(n)) for n in C17_SIMPLE_Q]
+    if tier_t:
+        hs += [H(f"c17::simple_{n}", tier="thorough", bounds=C17_BOUNDS, unwind=6, stubs=STUBS_DECAP[1:], cost=20, mem_gb=4, covers="any", family=fam(n)) for n in C17_SIMPLE_T]
+    return hs
+
+
+def c17_ref():
+    return [H(f"c17::ref_{n}", bounds="same contract lemma on the harness's RefMem (so that decap harnesses may use it in place of the bundled memory)", unwind=6, cost=8, mem_gb=3, covers="any", family="ref_" + n.split("_s")[0]) for n in C17_REF]
+
+
+PROPS["C17"] = dict(
+    claim="Bounded model checking of the bundled SimpleGseMemory against the trait contract, one operation at a time from EVERY state of "
+          "concrete heap shapes (1, 2 and 3 slots): provisioning (capacity, size, same buffer handed back), new_pdu (fails only when "
+          "empty), new_frag (replaces the slot's context and reuses its buffer, else a free buffer), take_frag (exactly the saved "
+          "context and buffer by pointer identity, otherwise UndefinedId with the memory unchanged, aliasing ids included), save_frag "
+          "(occupied slot refused); buffer contents untouched. One step from an arbitrary state covers operation sequences of any length.",
+    note="Trusted: Kani/CBMC/CaDiCaL; mem::swap replaced by a loop-free equivalent. The same lemmas are discharged for the harness's RefMem, which the decapsulation harnesses use as the memory.",
+    harnesses=c17_simple() + c17_ref() + [T("c17::twin_take", cost=5, stubs=STUBS_DECAP[1:])],
+    functions=["dvb_gse_rust::gse_decap::gse_decap_memory::SimpleGseMemory::{new,provision_storage,new_pdu,new_frag,take_frag,save_frag}"],
+    assumptions=COMMON_ASSUME + ["pre-states are built through the public trait (new, save_frag, provision_storage) in concrete heap shapes; every state reachable through the trait has one of these shapes up to slot count / free count",
+                                 "free-list ORDER is not part of the contract (bag semantics)"],
+    outside=["memories with more than 3 slots", "Vec::with_capacity returning more than the requested capacity (it returns exactly S+2 in Kani's model and in practice for this element size)"],
+)
